@@ -23,7 +23,7 @@ mod decaf377_affine {
     pub type AffinePoint = <decaf377::Element as ark_ec::CurveGroup>::Affine;
 }
 
-pub const NREG: usize = 8;
+pub const NREG: usize = 12;
 
 pub fn fq_bytes(x: &Fq) -> Vec<u8> {
     x.to_bytes_le().to_vec()
@@ -968,8 +968,9 @@ pub fn program(m: &mut Machine, r: &mut ChaCha20Rng, len: usize, heavy_mul: bool
     }
 }
 
-/// the structured element alphabet, loaded into registers 0..7:
-/// O, O' = (0,-1), B, B + T2, -B, 2B (Z != 1), an Elligator output, a rescaled B
+/// the structured element alphabet, loaded into registers 0..11:
+/// O, O' = (0,-1), B, B + T2 = (-x,-y), -B = (-x,y), -B + T2 = (x,-y), 2B (Z != 1), an Elligator output E,
+/// E + T2, -E + T2, a rescaled B, a small multiple of E (Z != 1)
 pub fn load_alphabet(m: &mut Machine, r: &mut ChaCha20Rng) {
     m.reset();
     m.konst(0, 0);
@@ -977,11 +978,17 @@ pub fn load_alphabet(m: &mut Machine, r: &mut ChaCha20Rng) {
     m.konst(1, 2);
     m.torque(2, 3);
     m.neg(0, 2, 4);
-    m.bin(0, 2, 2, 5);
+    m.torque(4, 5);
+    m.bin(0, 2, 2, 6);
     let x = rand_fq(r);
-    m.ell(&x, 6);
+    m.ell(&x, 7);
+    m.torque(7, 8);
+    m.neg(0, 7, 9);
+    m.torque(9, 9);
     let lam = rand_fq(r);
-    m.rescale(&(lam + Fq::from(2u64)), 2, 7);
+    m.rescale(&(lam + Fq::from(2u64)), 2, 10);
+    let k = [3u8 + (below(r, 200) as u8)];
+    m.mul(0, &k, 7, 11);
 }
 
 pub fn record(suite: &str, n: usize, seed: u64, arg: &str, out: &mut dyn Write) -> bool {
@@ -1135,7 +1142,7 @@ pub fn record(suite: &str, n: usize, seed: u64, arg: &str, out: &mut dyn Write) 
                     if n > 0 && cnt % n != 0 {
                         continue;
                     }
-                    let a = 2 + (cnt % 6);
+                    let a = 2 + (cnt % 10);
                     let save = m.regs;
                     m.mul(f, k, a, 0);
                     m.regs = save;
@@ -1149,7 +1156,7 @@ pub fn record(suite: &str, n: usize, seed: u64, arg: &str, out: &mut dyn Write) 
                     if n > 0 && cnt % n != 0 {
                         continue;
                     }
-                    let a = 2 + (cnt % 6);
+                    let a = 2 + (cnt % 10);
                     let save = m.regs;
                     m.mulbig(f, k, a, 0);
                     m.regs = save;
@@ -1356,7 +1363,7 @@ pub fn record(suite: &str, n: usize, seed: u64, arg: &str, out: &mut dyn Write) 
             let mut m = Machine::new(out);
             for i in 0..n.max(1) {
                 load_alphabet(&mut m, &mut r);
-                let src = if i == 0 { 2 } else { 2 + below(&mut r, 6) };
+                let src = if i == 0 { 2 } else { 2 + below(&mut r, 10) };
                 if i > 0 {
                     let k = rand_scalar(&mut r);
                     m.mul(0, &k, src, src);
